@@ -277,6 +277,10 @@ func (pathTargets *pathSubqueryMetadata) extractKeys(node interface{}, path []Pa
 	}
 
 	if len(path) == 0 {
+		// A null object has no key and nothing to stitch a sub-query result into.
+		if node == nil {
+			return nil
+		}
 		obj, ok := node.(map[string]interface{})
 		if !ok {
 			return fmt.Errorf("not an object: %v", obj)
